@@ -27,7 +27,7 @@ from .utilities import (
     validate_headers, validate_outbound_headers, normalize_outbound_headers,
     HeaderValidationFlags, extract_method_header, normalize_inbound_headers
 )
-from .windows import WindowManager
+from .windows import WindowManager, LARGEST_FLOW_CONTROL_WINDOW
 
 
 class StreamState(IntEnum):
@@ -1400,7 +1400,13 @@ class H2Stream:
         current window size, but we also need to set the target maximum window
         size to the new value.
         """
-        new_max_size = self._inbound_window_manager.max_window_size + delta
+        # The target can never usefully exceed the largest legal window: a
+        # larger target would let a later automatic WINDOW_UPDATE push the
+        # window we advertise beyond 2**31-1.
+        new_max_size = min(
+            self._inbound_window_manager.max_window_size + delta,
+            LARGEST_FLOW_CONTROL_WINDOW,
+        )
         self._inbound_window_manager.window_opened(delta)
         self._inbound_window_manager.max_window_size = new_max_size
 
